@@ -471,6 +471,34 @@ func c07Body(c *mc.Ctx, b c07Base, keyName string) {
 			c.Fail(sig("verify-content-disagree"), "deviations %v: %s", names, why)
 		}
 	}
+	// coherence on one object: Verify, then Content, then Verify again on the same parsed envelope (reading must not change it)
+	if verifyOK && contentOK {
+		func() {
+			defer func() {
+				if r := recover(); r != nil {
+					c.Fail(sig("panic"), "deviations %v: repeated reading of one object panics: %v", names, r)
+				}
+			}()
+			e, err := signature.ParseEnvelope(b.media, env)
+			if err != nil {
+				return
+			}
+			v1, err1 := e.Verify()
+			c1, err2 := e.Content()
+			v2, err3 := e.Verify()
+			c2, err4 := e.Content()
+			if err1 != nil || err2 != nil || err3 != nil || err4 != nil {
+				c.Fail(sig("verify-ok-then-reading-the-same-object-fails"), "deviations %v: Verify, Content, Verify, Content on one object: %v / %v / %v / %v", names, err1, err2, err3, err4)
+				return
+			}
+			for _, x := range []*signature.EnvelopeContent{c1, v2, c2} {
+				if why := sameContent(v1, x); why != "" {
+					c.Fail(sig("verify-content-disagree"), "deviations %v: repeated reading of one object: %s", names, why)
+					return
+				}
+			}
+		}()
+	}
 	// soundness on the returned value
 	for _, got := range []*signature.EnvelopeContent{vc, cc} {
 		if got == nil {
